@@ -584,6 +584,14 @@ func decodeRPM(b []byte) (*pkgObs, error) {
 		return o, fmt.Errorf("header not found after 8-byte aligned signature: %w", err)
 	}
 	o.Struct["sig_aligned"] = true
+	// rpm's header check refuses an index entry without data (count 0)
+	o.Struct["header_entries_have_data"] = true
+	for _, t := range append(append([]rpmTag{}, sig.Tags...), hdr.Tags...) {
+		if t.Cnt <= 0 {
+			o.Struct["header_entries_have_data"] = false
+			o.Notes = append(o.Notes, fmt.Sprintf("rpm header entry for tag %d has count %d", t.Tag, t.Cnt))
+		}
+	}
 	payload := b[hend:]
 	o.Raw["header"], o.Raw["payload"] = hdr.Raw, payload
 	comp, _ := hdr.str(rpmPayloadCompressor)
